@@ -6,6 +6,7 @@ package main
 
 import (
 	"fmt"
+	"go/ast"
 	"go/types"
 	"strings"
 )
@@ -101,8 +102,14 @@ func actionIDs(c *Check, r *Repo) {
 	fm.call("AddRule", "T")
 	fm.call("AddAction", "a2")
 	fm.call("AddExpression")
-	fm.tree.field("RulesCount").v = fm.tree.field("RulesCount").v.(int64) + 1 // Compile does RulesCount++ before linking
-	fm.firstPassAndLink()
+	// the passes of Compile as they are written (first pass, linking, the analyses, emission): the tree is read afterwards
+	rg := findRegion(r)
+	if len(rg.problems) > 0 {
+		panic(undecided{strings.Join(rg.problems, "; ")})
+	}
+	if em := fm.m.runFull(rg); em.Err != "" {
+		panic(undecided{em.Err})
+	}
 	acts, _ := fm.tree.field("Actions").v.(*SliceV)
 	var bad []string
 	if acts == nil || len(acts.elems) != 3 {
@@ -153,10 +160,9 @@ func actionIDs(c *Check, r *Repo) {
 	if strings.Join(names, ",") != "Action0,Action1,Action2" {
 		bad = append(bad, "action occurrences were rewritten to references "+strings.Join(names, ",")+" (expected Action0,Action1,Action2 in textual order)")
 	}
-	_, fn := findDecl(fm.it, "Tree", "link")
 	pos := ""
-	if fn != nil {
-		pos = r.pos(fn.Pos())
+	if fd := findLinkDecl(fm.it); fd != nil {
+		pos = r.pos(fd.Pos())
 	}
 	c.Decide(len(bad) == 0, "R-action-id", "Tree.link/case TypeAction numbers actions consistently", pos,
 		"evaluating link on S <- {a0} 'x' {a1}; T <- {a2}: occurrence i became Name ActionI, rule ActionI is Rule{ImplicitPush{copy with id I and code aI, rule copy ActionI}}, and t.Actions[I] is that copy",
@@ -212,4 +218,42 @@ func (fm *frontModel) separateOperands() bool {
 		}
 	}
 	return false
+}
+
+// findLinkDecl: the function of the second pass by its role — it switches on a
+// node's type and, in the case of an action, appends to the tree's Actions.
+func findLinkDecl(it *Interp) *ast.FuncDecl {
+	var found *ast.FuncDecl
+	for _, fd := range it.decls {
+		if fd.Body == nil || found != nil {
+			continue
+		}
+		ast.Inspect(fd.Body, func(n ast.Node) bool {
+			cc, ok := n.(*ast.CaseClause)
+			if !ok {
+				return true
+			}
+			isAction := false
+			for _, e := range cc.List {
+				if id, ok := e.(*ast.Ident); ok && id.Name == "TypeAction" {
+					isAction = true
+				}
+			}
+			if !isAction {
+				return true
+			}
+			for _, st := range cc.Body {
+				ast.Inspect(st, func(k ast.Node) bool {
+					if as, ok := k.(*ast.AssignStmt); ok && len(as.Lhs) == 1 {
+						if se, ok := as.Lhs[0].(*ast.SelectorExpr); ok && se.Sel.Name == "Actions" {
+							found = fd
+						}
+					}
+					return true
+				})
+			}
+			return true
+		})
+	}
+	return found
 }
